@@ -1,9 +1,35 @@
-import PcfgVerif.Model.OmenTrainer
-/-! C11 — (theorems relating trainer / scorer / guesser tables are added when proved) -/
+import PcfgVerif.Properties.OmenTrainCore
+/-!
+# C11 — trainer, scorer and guesser agree on every string's OMEN level
+
+`TTables` = the trainer's tables after smoothing (levels are inputs: the smoothing function itself is
+modelled, not verified); `TTables.WF` = every key / letter once, levels within 0..maxLevel, n-gram ≥ 2
+(true of what `AlphabetLookup` builds).  `toTables` = what the guesser's loader builds from the files.
+-/
 namespace Pcfg.C11
 open Omen
 
-/-- strings shorter than the n-gram size or longer than the length table have no level -/
+/-- scorer = trainer, for every string -/
+theorem C11_scorer (t : TTables) (hwf : t.WF) (s : Str) : t.scorerLevel s = t.trainerLevel s :=
+  scorerLevel_eq_trainerLevel t hwf s
+
+/-- the level specification over the guesser's loaded tables = the trainer's level, for every string
+(unknown letters, shorter than the n-gram, exactly that long, longer than the maximum) -/
+theorem C11_spec (t : TTables) (hwf : t.WF) (s : Str) :
+    t.toTables.levelOf (t.ngram - 1) s = t.trainerLevel s :=
+  levelOf_eq_trainerLevel t hwf s
+
+/-- guesser = trainer: the Markov generator emits `s` at level `L` (once) iff the trainer assigns `L`;
+strings without a trainer level are never generated.  Hence the per-level counts of the trainer's
+third pass describe what the guesser produces. -/
+theorem C11_guesser (t : TTables) (hwf : t.WF) (target : Nat)
+    (s0 : CState) (hs : t.toTables.start = some s0) :
+    ∃ N, (∀ fuel, N ≤ fuel → t.toTables.enumFrom target fuel s0 = t.toTables.enumFrom target N s0) ∧
+      (t.toTables.enumFrom target N s0).Nodup ∧
+      ∀ s : Str, s ∈ t.toTables.enumFrom target N s0 ↔ t.trainerLevel s = some target :=
+  guesser_emits_iff_trainerLevel t hwf target s0 hs
+
+/-- strings shorter than the n-gram size or longer than the length table have no level anywhere -/
 theorem C11_out_of_range (t : TTables) (s : Str) (h : s.length < t.ngram ∨ s.length > t.lns.length) :
     t.trainerLevel s = none ∧ t.scorerLevel s = none := by
   unfold TTables.trainerLevel TTables.scorerLevel
